@@ -24,6 +24,7 @@ import (
 	"sort"
 	"strconv"
 	"strings"
+	"sync"
 	"syscall"
 	"time"
 
@@ -694,6 +695,258 @@ func gobCase(w *gen.Writer, keys []string, brs []query.BranchRepos, m zoekt.Repo
 	w.Emit(c)
 }
 
+// ---------------------------------------------------------------- histories of calls
+
+// The codecs are specified as functions of their argument. A history keeps every result a call handed out — the
+// encoder's byte slice itself, not a copy; the decoded value itself — while further encode / decode calls of all three
+// codecs run in the same process, and the caller overwrites each decoder input buffer once the call has returned (it
+// owns that buffer). At the end every retained result must be what it was when it was returned, every retained
+// encoding must still decode to its value, and the Lean model (which computes each step on its own) must agree.
+type histStep struct {
+	kind     string // ssenc rmenc brenc ssdec rmdec brdec
+	arg      string // canonical value (enc) or hex input (dec)
+	bytes    []byte // enc: the slice the encoder returned (retained, never copied)
+	set      *query.FileNameSet
+	rm       *zoekt.ReposMap
+	br       *query.BranchesRepos
+	decErr   bool
+	snapshot string // rendering right after the call
+	table    string
+}
+
+func (st *histStep) render() (out string) {
+	defer func() {
+		if r := recover(); r != nil {
+			out = "panic-on-use"
+		}
+	}()
+	switch st.kind {
+	case "ssenc", "rmenc", "brenc":
+		return gen.Hex(st.bytes)
+	}
+	if st.decErr {
+		return "err"
+	}
+	switch st.kind {
+	case "ssdec":
+		return "ok " + showSet(st.set.Set)
+	case "rmdec":
+		return "ok " + showRMap(*st.rm)
+	default:
+		return "ok " + showBrList(st.br.List)
+	}
+}
+
+func scribble(b []byte) {
+	for i := range b {
+		b[i] = 0xA5
+	}
+}
+
+func historyCase(w *gen.Writer, r *gen.Rand, f gen.Flags) {
+	n := r.Range(2, 6)
+	steps := make([]*histStep, 0, n)
+	panicked := ""
+	for i := 0; i < n && panicked == ""; i++ {
+		st := &histStep{table: "-"}
+		func() {
+			defer func() {
+				if rec := recover(); rec != nil {
+					panicked = fmt.Sprint(rec)
+				}
+			}()
+			k := r.Intn(10)
+			switch {
+			case k < 2: // ssenc
+				q := &query.FileNameSet{Set: map[string]struct{}{}}
+				for _, key := range genKeys(r) {
+					q.Set[key] = struct{}{}
+				}
+				st.kind, st.arg = "ssenc", showSet(q.Set)
+				st.bytes, _ = q.MarshalBinary()
+			case k < 5: // rmenc (maps of similar size follow each other often: a reused buffer is then overwritten in place)
+				m := genRMap(r)
+				st.kind, st.arg = "rmenc", showRMap(m)
+				st.bytes, _ = m.MarshalBinary()
+			case k < 6: // brenc
+				l := genBrList(r)
+				if len(l) > 6 {
+					l = l[:6]
+				}
+				var entries []string
+				var sers [][]byte
+				for _, br := range l {
+					ser, _ := br.Repos.ToBytes()
+					sers = append(sers, ser)
+					entries = append(entries, xhex([]byte(br.Branch))+":"+xhex(ser))
+				}
+				st.kind, st.arg = "brenc", "-"
+				if len(entries) > 0 {
+					st.arg = strings.Join(entries, ";")
+				}
+				st.table = roaringTable(nil, sers...)
+				q := query.BranchesRepos{List: l}
+				st.bytes, _ = q.MarshalBinary()
+			case k < 7: // ssdec
+				q := &query.FileNameSet{Set: map[string]struct{}{}}
+				for _, key := range genKeys(r) {
+					q.Set[key] = struct{}{}
+				}
+				enc, _ := q.MarshalBinary()
+				in := append([]byte(nil), enc...)
+				if r.Chance(1, 4) {
+					in = mutate(r, in)
+				}
+				st.kind, st.arg = "ssdec", gen.Hex(in)
+				st.set = &query.FileNameSet{}
+				st.decErr = st.set.UnmarshalBinary(in) != nil
+				st.snapshot = st.render()
+				scribble(in) // the caller's buffer is the caller's again
+			case k < 9: // rmdec
+				src := genRMap(r)
+				enc, _ := src.MarshalBinary()
+				in := append([]byte(nil), enc...)
+				if r.Chance(1, 4) {
+					in = mutate(r, in)
+				}
+				st.kind, st.arg = "rmdec", gen.Hex(in)
+				st.rm = &zoekt.ReposMap{}
+				st.decErr = st.rm.UnmarshalBinary(in) != nil
+				st.snapshot = st.render()
+				scribble(in)
+			default: // brdec
+				l := genBrList(r)
+				if len(l) > 6 {
+					l = l[:6]
+				}
+				var sers [][]byte
+				for _, br := range l {
+					ser, _ := br.Repos.ToBytes()
+					sers = append(sers, ser)
+				}
+				q := query.BranchesRepos{List: l}
+				enc, _ := q.MarshalBinary()
+				in := append([]byte(nil), enc...)
+				st.kind, st.arg = "brdec", gen.Hex(in)
+				st.table = roaringTable(nil, sers...)
+				st.br = &query.BranchesRepos{}
+				st.decErr = st.br.UnmarshalBinary(in) != nil
+				st.snapshot = st.render()
+				scribble(in)
+			}
+			if st.snapshot == "" {
+				st.snapshot = st.render()
+			}
+		}()
+		if panicked == "" {
+			steps = append(steps, st)
+			w.Count("hist-step:"+st.kind, 1)
+		}
+	}
+	var ins, impls, tables []string
+	c := gen.Case{Class: fmt.Sprintf("hist:steps=%d", len(steps)), Nontrivial: len(steps) >= 2}
+	encs := 0
+	for i, st := range steps {
+		final := st.render()
+		ins = append(ins, st.kind+"="+st.arg)
+		impls = append(impls, final)
+		if st.table != "-" {
+			tables = append(tables, st.table)
+		}
+		codec := map[string]string{"ss": "stringset", "rm": "reposmap", "br": "branchesrepos"}[st.kind[:2]]
+		if strings.HasSuffix(st.kind, "enc") {
+			encs++
+		}
+		// Go oracle, independent of the model: the retained result is what the call returned
+		if final != st.snapshot && c.Go == "" {
+			c.Go = fmt.Sprintf("the result of call %d (%s) changed while later calls ran: it no longer is what the call returned", i+1, st.kind)
+			c.Key = "history:result-not-stable:" + codec
+		}
+		// … and a retained encoding still decodes to its value
+		if strings.HasSuffix(st.kind, "enc") && c.Go == "" {
+			canon, _ := decodeOnce(st.kind[:2], append([]byte(nil), st.bytes...))
+			want := st.arg
+			if st.kind == "brenc" {
+				want = "" // compared by the model (bitmap tokens)
+			}
+			norm := func(s string) string {
+				if s == "nil" {
+					return "-"
+				}
+				return s
+			}
+			if want != "" && norm(strings.TrimPrefix(canon, "ok ")) != norm(want) {
+				c.Go = fmt.Sprintf("the encoding returned by call %d (%s) no longer decodes to the encoded value after later calls", i+1, st.kind)
+				c.Key = "history:result-not-stable:" + codec
+			}
+		}
+	}
+	if encs >= 2 {
+		w.Count("hist-with-2+-retained-encodings", 1)
+	}
+	if panicked != "" {
+		c.Go, c.Key = "a call in the history panicked: "+firstLine(panicked), "history:panic"
+	} else if len(steps) > 0 {
+		tbl := "-"
+		if len(tables) > 0 {
+			tbl = strings.Join(tables, ",")
+		}
+		c.In = fmt.Sprintf("hist %s %s", strings.Join(ins, "|"), tbl)
+		c.Impl = strings.Join(impls, "|")
+	}
+	c.Detail = gen.Detail(map[string]any{"kind": "hist", "steps": ins})
+	w.Emit(c)
+}
+
+// concurrentCase: several goroutines each encode their own values and decode their own results (what concurrent List
+// RPCs do). Scheduling dependent, so it only ever adds evidence; the sequential histories above are the deterministic
+// detector for results that alias shared state.
+func concurrentCase(w *gen.Writer, r *gen.Rand, rounds int) {
+	const workers = 4
+	errs := make(chan string, workers)
+	var wg sync.WaitGroup
+	for g := 0; g < workers; g++ {
+		rr := r.Fork()
+		wg.Add(1)
+		go func() {
+			defer wg.Done()
+			defer func() {
+				if rec := recover(); rec != nil {
+					errs <- "reposmap: panic " + firstLine(fmt.Sprint(rec))
+				}
+			}()
+			for i := 0; i < rounds; i++ {
+				m := genRMap(rr)
+				enc, _ := m.MarshalBinary()
+				q := &query.FileNameSet{Set: map[string]struct{}{}}
+				for _, key := range genKeys(rr) {
+					q.Set[key] = struct{}{}
+				}
+				enc2, _ := q.MarshalBinary()
+				runtime.Gosched()
+				var m2 zoekt.ReposMap
+				if err := m2.UnmarshalBinary(enc); err != nil || !rmEqual(m, m2) {
+					errs <- "reposmap"
+					return
+				}
+				var q2 query.FileNameSet
+				if err := q2.UnmarshalBinary(enc2); err != nil || showSet(q2.Set) != showSet(q.Set) {
+					errs <- "stringset"
+					return
+				}
+			}
+		}()
+	}
+	wg.Wait()
+	close(errs)
+	c := gen.Case{Class: "concurrent-roundtrip", Nontrivial: true, Detail: gen.Detail(map[string]any{"kind": "concurrent"})}
+	if e, ok := <-errs; ok {
+		c.Go = "concurrent encoders: a goroutine's own encoding did not decode to its own value (" + e + ")"
+		c.Key = "history:result-not-stable:" + strings.SplitN(e, ":", 2)[0]
+	}
+	w.Emit(c)
+}
+
 // ---------------------------------------------------------------- generators
 
 var names = []string{"", "a", "HEAD", "main", "dev", "日本語", "é", "\xff\xfe", "a b", "x/y.go", "\x00", "refs/heads/main"}
@@ -970,11 +1223,11 @@ func main() {
 		if d.Kind == "" { // a corpus file
 			json.Unmarshal(b, &d)
 		}
-		if d.Kind != "" && d.Kind != "ssrt" && d.Kind != "rmrt" && d.Kind != "brrt" {
+		if d.Kind != "" && d.Kind != "ssrt" && d.Kind != "rmrt" && d.Kind != "brrt" && d.Kind != "hist" && d.Kind != "concurrent" && d.Kind != "gob" {
 			runStored(w, d, "replay")
 			return
 		}
-		// round-trip cases are regenerated from the seed below (they carry no bytes)
+		// round-trip cases and histories are regenerated from the seed below (they are functions of the seed alone)
 	}
 
 	// corpus first
@@ -1024,6 +1277,13 @@ func main() {
 	}
 	for i := 0; i < f.N(100, 2000); i++ {
 		gobCase(w, genKeys(r), genBrList(r), genRMap(r))
+	}
+	// 1b. histories of calls with every result retained, and concurrent encoders
+	for i := 0; i < f.N(400, 8000); i++ {
+		historyCase(w, r, f)
+	}
+	for i := 0; i < f.N(4, 40); i++ {
+		concurrentCase(w, r, f.N(60, 300))
 	}
 	// 2. hand-written version-1 ReposMap encodings (the encoder only writes version 2)
 	for _, b := range [][]byte{
